@@ -1,11 +1,63 @@
 package main
 
-// Per-property clause lists (D = decided by discharged obligations, U = undecided by
-// this family), copied into every evidence file.  See DESIGN.md section 4.
+// Per-property clause lists (D = decided by discharged obligations, B = bounded stand-in,
+// U = undecided by this family), copied into every evidence file.  See DESIGN.md section 4.
 
-var decided = map[string][]string{}
-var undecided = map[string][]string{}
-var propAssume = map[string][]string{}
+var decided = map[string][]string{
+	"C14": {
+		"triSign(x) == sign(x) for x != 1 (x == 1: known finding F2)",
+		"multiplyUInt64: Hi*2^64 + Lo == a*b for all uint64 a, b, no intermediate overflow",
+		"productsAreEqual(a,b,c,d) == (a*b == c*d) for magnitudes <= 2^53 when no factor equals 1",
+		"isCollinear == (integer cross product == 0) on the 2^29 domain when no coordinate difference equals 1",
+		"CrossProduct: zero iff cross == 0, same sign as the integer cross product, exact value up to 2^53, no int64 overflow on the 2^29 domain",
+		"getBounds / GetBounds64: every vertex inside the returned rectangle, each side attained by some vertex, Rect64{} for the empty path",
+		"Area64: loop accumulates the exact shoelace sum while it stays within int64; result*2 == shoelace sum (decimal contract); IsPositive64 == (sum >= 0); AreaPaths64 sums path areas",
+		"PointInPolygon: index safety for every polygon length, len < 3 => IsOutside",
+	},
+	"C15": {
+		"TrimCollinear64: all index expressions in range for every length; all four loops terminate",
+		"every result vertex is an input vertex; open paths keep first and last point (or the documented short-path results)",
+		"closed result has 0 or >= 3 vertices whenever isCollinear is exact on the path's points (F2 carve-out)",
+		"isCollinear contract as in C14",
+	},
+	"C16": {
+		"getNext/getPrior: cyclically next/previous unflagged index, in range, terminate",
+		"SimplifyPath64/D: index safety, preconditions of getNext/getPrior at every call, len < 4 returns the argument, result vertices are input vertices, open end points kept for epsilon^2 < MaxFloat64",
+		"SimplifyPaths64/D: path by path",
+		"PerpendicDistFromLineSqr64 == cross^2/|line|^2, no overflow on the 2^29 domain; translation invariance and s^2 scaling of that value (lemmas)",
+	},
+	"C12": {
+		"every public Execute* entry point re-establishes the idle state; constructors start idle; reset() re-initialises the per-run scratch fields",
+		"succeeded, fillRule, clipType, currentBotY, currentLocMin, sel, usingPolyTree are written before read in every entry point's call tree",
+		"pre-call contents of solution arguments are dead (replaced, not appended to)",
+		"no exported function writes caller-supplied slices; AddPaths variants retain none; no package-level state",
+	},
+	"C17": {
+		"repeat calls are functions of their arguments: no package-level state, map iteration, clock, random source, environment access or address-as-integer in any function",
+		"sort comparators (where listed under functions_under_contract) are total, antisymmetric orders",
+	},
+	"C18": {
+		"no function writes or takes the address of a package-level variable (transitively)",
+		"package-level variables are initialised by pure expressions and are not of a mutable reference kind",
+		"no goroutine, channel, select, sync/atomic/unsafe/runtime use",
+		"exported functions only read caller-supplied slices",
+	},
+}
+
+var undecided = map[string][]string{
+	"C14": {"PointInPolygon: the three-way classification for arbitrary polygons (bounded stand-in only)", "Area64 when the exact sum leaves int64 (known finding F16 region)"},
+	"C15": {"closed paths beyond the bound: sub-sequence in order, area unchanged, no collinear triple left, idempotence (bounded stand-in only)"},
+	"C16": {"exit condition and termination of the main loop beyond the bound (bounded stand-in only)", "epsilon 0 area preservation beyond the bound"},
+	"C12": {"equality of results when the same paths are added in another order or split over several AddPaths calls (depends on the sweep's handling of equal-Y local minima)"},
+	"C17": {"all region-equality clauses: permutation of paths, start-vertex rotation, duplicated vertices, reversal, subject/clip exchange, the 8 lattice symmetries (relational properties of the sweep)"},
+	"C18": {"interleavings are not explored: the argument is the frame condition, under the assumption that the Go runtime and imported packages keep no racy shared state"},
+}
+
+var propAssume = map[string][]string{
+	"C17": {"sort.Slice / slices.SortFunc are deterministic functions of their input"},
+	"C18": {"the Go runtime and imported packages (math, sort, slices, fmt, errors, govalues/decimal, x/exp/constraints) keep no racy shared state", "user callbacks do not share state between calls"},
+	"C12": {"user callbacks (deltaCallback, scaleFn) do not write library state"},
+}
 
 func decidedClauses(p string) []string {
 	if v, ok := decided[p]; ok {
